@@ -108,7 +108,8 @@ class PostgresImpl(SqlImpl):
             return sqa.cast(val, sqa.BigInteger)
         elif fn.op in (ops.sum, ops.cum_sum):
             # postgres sometimes switches types for `sum`
-            return sqa.cast(val, args[0].type)
+            # (the argument may be a function call whose SQL type is unknown to SQLAlchemy)
+            return sqa.cast(val, cls.sqa_type(types.without_const(fn.args[0].dtype())))
         return val
 
     @classmethod
